@@ -27,7 +27,7 @@
     The theorems need nothing from the left graph nor from [left]: they speak
     about every run that returns.  The proofs are in MergeFacts.v. *)
 
-From Sodg Require Import MergeFacts.
+From Sodg Require Import MergeFacts MergePresent.
 
 (** ** the definitions the statements use, unfolded *)
 
@@ -182,6 +182,122 @@ Proof. exact op_merge_mapped_fuel. Qed.
 Check C12_mapped_never_out_of_fuel : forall n s h left right,
   op_merge_mapped n s h left right <> OutOfFuel.
 Print Assumptions C12_mapped_never_out_of_fuel.
+
+(** ** (d) "mapped onto a vertex of the left graph": every image is a present
+    vertex of the left graph after the call, provided the left graph has no
+    edge from a present vertex into a collected one ([lclosed]: true of every
+    left tree of present vertices; reachable graphs in general can have such
+    edges, and then merge follows them: [C12_dangling_image_absent] shows the
+    model answering Ok while a right vertex sits on an absent left slot -- a
+    left graph outside the property's quantifier).  Proofs: MergePresent.v. *)
+
+Theorem C12_def_lclosed :
+  forall s, lclosed s <->
+  (forall u a w, u < cap_of s -> tag s u <> 0 -> In (a, w) (edg s u) -> w < cap_of s /\ tag s w <> 0).
+Proof. exact (fun s => conj (fun H => H) (fun H => H)). Qed.
+
+Check C12_def_lclosed :
+  forall s, lclosed s <->
+  (forall u a w, u < cap_of s -> tag s u <> 0 -> In (a, w) (edg s u) -> w < cap_of s /\ tag s w <> 0).
+Print Assumptions C12_def_lclosed.
+
+Theorem C12_ok_images_present :
+  forall n s h left right s',
+  Inv n s -> lclosed s -> tag s left <> 0 -> hclosed h right ->
+  op_merge n s h left right = Ok (s', None) ->
+  exists m', op_merge_mapped n s h left right = Ok (s', m')
+    /\ forall v, tag h v <> 0 -> exists w, map_get m' v = Some w /\ w < cap_of s' /\ tag s' w <> 0.
+Proof. exact merge_ok_images_present. Qed.
+
+Check C12_ok_images_present :
+  forall n s h left right s',
+  Inv n s -> lclosed s -> tag s left <> 0 -> hclosed h right ->
+  op_merge n s h left right = Ok (s', None) ->
+  exists m', op_merge_mapped n s h left right = Ok (s', m')
+    /\ forall v, tag h v <> 0 -> exists w, map_get m' v = Some w /\ w < cap_of s' /\ tag s' w <> 0.
+Print Assumptions C12_ok_images_present.
+
+Theorem C12_images_present :
+  forall n s h left right s' r,
+  Inv n s -> lclosed s -> tag s left <> 0 ->
+  op_merge n s h left right = Ok (s', r) ->
+  exists m', op_merge_mapped n s h left right = Ok (s', m')
+    /\ forall v w, map_get m' v = Some w -> w < cap_of s' /\ tag s' w <> 0.
+Proof. exact merge_any_images_present. Qed.
+
+Check C12_images_present :
+  forall n s h left right s' r,
+  Inv n s -> lclosed s -> tag s left <> 0 ->
+  op_merge n s h left right = Ok (s', r) ->
+  exists m', op_merge_mapped n s h left right = Ok (s', m')
+    /\ forall v w, map_get m' v = Some w -> w < cap_of s' /\ tag s' w <> 0.
+Print Assumptions C12_images_present.
+
+Theorem C12_left_stays_closed :
+  forall n s h left right s' m',
+  Inv n s -> lclosed s -> left < cap_of s -> tag s left <> 0 ->
+  op_merge_mapped n s h left right = Ok (s', m') ->
+  lclosed s' /\ cap_of s' = cap_of s /\ (forall u, u < cap_of s -> tag s u <> 0 -> tag s' u <> 0).
+Proof. exact merge_keeps_lclosed. Qed.
+
+Check C12_left_stays_closed :
+  forall n s h left right s' m',
+  Inv n s -> lclosed s -> left < cap_of s -> tag s left <> 0 ->
+  op_merge_mapped n s h left right = Ok (s', m') ->
+  lclosed s' /\ cap_of s' = cap_of s /\ (forall u, u < cap_of s -> tag s u <> 0 -> tag s' u <> 0).
+Print Assumptions C12_left_stays_closed.
+
+Theorem C12_ex_images_present_hyps :
+  Inv 16 exP_s /\ lclosed exP_s /\ 0 < cap_of exP_s /\ tag exP_s 0 <> 0 /\ hclosed exP_h 0.
+Proof. exact merge_present_ex_hyps. Qed.
+
+Check C12_ex_images_present_hyps :
+  Inv 16 exP_s /\ lclosed exP_s /\ 0 < cap_of exP_s /\ tag exP_s 0 <> 0 /\ hclosed exP_h 0.
+Print Assumptions C12_ex_images_present_hyps.
+
+Theorem C12_ex_images_present :
+  exists s',
+    op_merge 16 exP_s exP_h 0 0 = Ok (s', None)
+    /\ op_merge_mapped 16 exP_s exP_h 0 0 = Ok (s', [(2, 3); (4, 2); (3, 4); (1, 1); (0, 0)])
+    /\ op_keys exP_s = [0; 1; 4; 5] /\ op_keys s' = [0; 1; 2; 3; 4; 5]
+    /\ lclosedb s' = true /\ cap_of s' = cap_of exP_s.
+Proof. exact merge_present_ex_result. Qed.
+
+Check C12_ex_images_present :
+  exists s',
+    op_merge 16 exP_s exP_h 0 0 = Ok (s', None)
+    /\ op_merge_mapped 16 exP_s exP_h 0 0 = Ok (s', [(2, 3); (4, 2); (3, 4); (1, 1); (0, 0)])
+    /\ op_keys exP_s = [0; 1; 4; 5] /\ op_keys s' = [0; 1; 2; 3; 4; 5]
+    /\ lclosedb s' = true /\ cap_of s' = cap_of exP_s.
+Print Assumptions C12_ex_images_present.
+
+Theorem C12_dangling_left_hyps :
+  Inv 16 exD_s /\ 0 < cap_of exD_s /\ tag exD_s 0 <> 0 /\ hclosed exD_h 0
+  /\ lclosedb exD_s = false
+  /\ op_keys exD_s = [0; 1] /\ edg exD_s 0 = [(Alpha 0, 1); (Alpha 1, 2)] /\ tag exD_s 2 = 0.
+Proof. exact merge_dangling_hyps. Qed.
+
+Check C12_dangling_left_hyps :
+  Inv 16 exD_s /\ 0 < cap_of exD_s /\ tag exD_s 0 <> 0 /\ hclosed exD_h 0
+  /\ lclosedb exD_s = false
+  /\ op_keys exD_s = [0; 1] /\ edg exD_s 0 = [(Alpha 0, 1); (Alpha 1, 2)] /\ tag exD_s 2 = 0.
+Print Assumptions C12_dangling_left_hyps.
+
+Theorem C12_dangling_image_absent :
+  exists s' m',
+    op_merge 16 exD_s exD_h 0 0 = Ok (s', None)
+    /\ op_merge_mapped 16 exD_s exD_h 0 0 = Ok (s', m')
+    /\ tag exD_h 1 <> 0 /\ map_get m' 1 = Some 2 /\ tag s' 2 = 0
+    /\ op_keys s' = [0; 1].
+Proof. exact merge_dangling_image_absent. Qed.
+
+Check C12_dangling_image_absent :
+  exists s' m',
+    op_merge 16 exD_s exD_h 0 0 = Ok (s', None)
+    /\ op_merge_mapped 16 exD_s exD_h 0 0 = Ok (s', m')
+    /\ tag exD_h 1 <> 0 /\ map_get m' 1 = Some 2 /\ tag s' 2 = 0
+    /\ op_keys s' = [0; 1].
+Print Assumptions C12_dangling_image_absent.
 
 (** ** non-vacuity *)
 
